@@ -156,6 +156,8 @@ class KDTree(Contract):
 
 def _pick(fns, j):
     if not is_sym(j):
+        if not (0 <= j < len(fns)):
+            return lambda *idx: 0.0  # out of range: never a valid element (guards of the facts exclude it)
         return fns[j]
 
     def f(*idx):
